@@ -34,7 +34,11 @@ func checkClosureFn(p *core.Prog, r *core.Report, rule, name string, minDist int
 	}
 	// source vertex = moduleIndex[<name parameter>]
 	okSrc := false
-	if lk, ok := core.SkipConv(sp.Call.Args[1]).(*ssa.Lookup); ok {
+	srcV := core.SkipConv(sp.Call.Args[1])
+	if ex, ok := srcV.(*ssa.Extract); ok && ex.Index == 0 {
+		srcV = ex.Tuple // `idx, found := g.moduleIndex[name]`
+	}
+	if lk, ok := srcV.(*ssa.Lookup); ok {
 		if f, _ := core.LoadedField(lk.X); f == idxF && core.SkipConv(lk.Index) == ssa.Value(fn.Params[1]) {
 			okSrc = true
 		}
